@@ -10,6 +10,9 @@ CLAIMED = {
  'C06': ('M', 'symbolic execution of the rustc MIR of every ZDD operation into Z3; one inductive step per operation over all families of a bounded universe (bit-vector set algebra as oracle); native replay of counterexamples',
          'Bounded solver-decided inductive step: for every arena and standalone operation (union, intersection, difference, product, product_with_optional, count, remap) the MIR of the recursive function is executed symbolically with both operands ranging over ALL families over n variables (n=4 quick, n=5 thorough); recursive calls are replaced by their contract with a strictly decreasing measure, caches by their invariant. Z3 proves result = set-algebra spec on every path, which by induction covers operation sequences of any length within the universe bound.',
          'Trusted: rustc MIR dump, vlib MIR parser/executor, the unique-table abstraction (get_node = decomposition, get_or_create = lo|addvar(hi,v) + ordering obligation; justified by C07), Z3. Outside: >5 variables, usize overflow of count, SharedArena locking.', 'DESIGN.md §4 C06'),
+ 'C08': ('M+K', 'symbolic execution of the MIR of eval_binary_op and of the Expr::Binary arm of eval_expr_with_functions into Z3 (bit-vector + IEEE-754 theories, exact oracle) plus Kani/CBMC harnesses on the compiled eval_binary_op; native replay',
+         'Solver-decided for ALL i64 and ALL f64 bit patterns (no value bound, no loops): for each of <,<=,>,>= and each operand class (Int/Int, Float/Float, Int/Float, Float/Int) the result of both evaluators equals the mathematical order (NaN: false). Two independent encodings (MIR->Z3 and compiled crate->CBMC) must agree.',
+         'Trusted: MIR dump + executor, Kani/CBMC, the exact comparison oracle (range split + round-toward-zero, written twice: z3 and Rust). Assumes the two recursive operand evaluations of the Binary arm can return any Some(Int|Float). Outside: non-numeric operands, engine plumbing around the evaluators.', 'DESIGN.md §4 C08'),
 }
 
 NOT_APPLICABLE = {
